@@ -183,6 +183,8 @@ func (s *Server) livesimHandlerFunc(w http.ResponseWriter, r *http.Request) {
 				http.Error(w, tooEarly.Error(), http.StatusTooEarly)
 			case errors.Is(err, errGone):
 				http.Error(w, "Gone", http.StatusGone)
+			case errors.Is(err, errBadConfig): // The URL parameters do not fit the asset
+				http.Error(w, err.Error(), http.StatusBadRequest)
 			default:
 				http.Error(w, "writeSegment", http.StatusInternalServerError)
 				return
